@@ -14,7 +14,7 @@ import itertools
 from functools import lru_cache
 
 from verif import extract
-from verif.common import Ctx, Outcome, Witness
+from verif.common import Ctx, Outcome, Witness, Ob
 from verif.extract import ExtractionError
 from verif.reglang import automata as A
 from verif.reglang import declist, tokmodel
@@ -461,7 +461,28 @@ def ob_expr(ctx: Ctx, oid: str) -> Outcome:
     rebuilt = A.concat(al, [seg, ops, seg, A.nfa_star(al, A.nfa_concat(al, [A.nfa_set(al, ops), seg.to_nfa()]))])
     expr_full = A.dfa_regex(c["EXPRESSION_PATTERN"].pattern, c["EXPRESSION_PATTERN"].flags, None, al)
     if not ((rebuilt - expr_full).is_empty() and (expr_full - rebuilt).is_empty()):
-        return Outcome.undecided("dfa", "EXPRESSION_PATTERN is no longer IDENT (OP IDENT)+ over _UNICODE_OPS; the segment lemma does not apply")
+        # the pattern was rewritten. The segment lemma still covers every value emitted bare through the expression
+        # branch as long as that class stays inside IDENT (OP IDENT)+ ; members outside it are not covered by the lemma,
+        # so they are replayed on the real emit + re-read: a failing member is a violation, none failing is undecided.
+        extra = cls - rebuilt
+        if not extra.is_empty():
+            cands: list[str] = []
+            cur = extra
+            for _ in range(4):
+                w = cur.witness()
+                if w is None:
+                    break
+                cands.append(al.decode(w))
+                cur = cur - A.concat(al, [cands[-1]])
+            for probe in _PROBES:
+                w = (extra & A.concat(al, [A.sigma_star(al), probe, A.sigma_star(al)])).witness()
+                if w is not None and al.decode(w) not in cands:
+                    cands.append(al.decode(w))
+            made = [_witness_for_value(v, "a string emitted bare as an operator expression is not of the shape IDENT (OP IDENT)+ whose segments are proved to re-lex", verifier=f"L(bare expression class) - IDENT (OP IDENT)+ has {extra.size()} DFA states; member {v!r}") for v in cands]
+            confirmed = [w for w in made if w.confirmed]
+            if confirmed:
+                return Outcome.refuted("dfa", confirmed[:3], count=2)
+            return Outcome.undecided("dfa", f"EXPRESSION_PATTERN admits strings outside IDENT (OP IDENT)+ over _UNICODE_OPS (e.g. {cands[:3]}); the segment lemma does not cover them and none of the replayed members fails")
     n = 0
     bad_seg = A.nomark(al) - A.nomark(al)
     prevs = PREV_CTX + [chr(al.rep[o]) for o in sorted(ops)]
@@ -662,3 +683,88 @@ def ob_nfc_stable(ctx: Ctx, oid: str) -> Outcome:
     if wits:
         return Outcome.refuted("dfa+unicodedata", wits, count=n)
     return Outcome.ok("dfa+unicodedata", count=n)
+
+
+# ---- reading side: Parser.parse_value on a standalone scalar token (contracts/parse_scalar.py) ------------------------
+PARSE_SCALAR_TEXTS = ["007", "00", "-01", "0042", "42", "-5", "3.50", "00.5", "1e10", "-0.0", "1E5", "true", "false", "null", '"a b"', '""', '"007"', '"true"']
+
+
+def probe_parse_scalar() -> tuple[bool, str]:
+    """concrete stand-in when parse_value leaves the executor's subset: the value read for a scalar text equals the value
+    (and type) the lexer put in its single token, as assignment value, list item and last list item"""
+    from octave_mcp.core.lexer import tokenize
+    from octave_mcp.core.parser import parse
+
+    bad = []
+    for t in PARSE_SCALAR_TEXTS:
+        toks = [k for k in tokenize(f"K::{t}\n")[0] if k.type.name in ("NUMBER", "STRING", "BOOLEAN", "NULL")]
+        if len(toks) != 1:
+            continue
+        want = toks[0].value
+        for ctx_name, text, get in (
+            ("assignment", f"===T===\nK::{t}\n===END===\n", lambda d: d.sections[0].value),
+            ("list item", f"===T===\nK::[{t},x]\n===END===\n", lambda d: d.sections[0].value.items[0]),
+            ("last list item", f"===T===\nK::[x,{t}]\n===END===\n", lambda d: d.sections[0].value.items[1]),
+        ):
+            try:
+                got = get(parse(text))
+            except Exception as e:  # noqa: BLE001
+                bad.append(f"{t} as {ctx_name}: {type(e).__name__}: {e}")
+                continue
+            if type(got) is not type(want) or not (got == want or (got != got and want != want)):
+                bad.append(f"{t} as {ctx_name}: the lexer's token carries {want!r} ({type(want).__name__}), the parser returns {got!r} ({type(got).__name__})")
+    return bool(bad), "; ".join(bad[:3]) or f"{len(PARSE_SCALAR_TEXTS)} scalar texts x 3 positions: parser value == token value"
+
+
+def parse_scalar_obs(P: str) -> list[Ob]:
+    from contracts import parse_scalar as PS
+    from verif.common import shape_verdict
+    from verif.pyvc.adapter import contract_outcome
+
+    def make(group):
+        def fn(ctx: Ctx) -> Outcome:
+            total = dis = 0
+            wits: list[Witness] = []
+            undecided = []
+            extra: dict = {}
+            backends: dict = {}
+            for ref in group(ctx):
+                c = eval("PS." + ref, {"PS": PS})  # noqa: S307 - refs are built below from constant kind names
+                out = contract_outcome(c, f"contracts.parse_scalar:{ref}")
+                total += out.count or 0
+                dis += out.discharged or 0
+                for k, v in (out.extra or {}).get("by_backend", {}).items():
+                    b = backends.setdefault(k, [0, 0.0])
+                    b[0] += v[0]
+                    b[1] = round(b[1] + v[1], 3)
+                extra = {k: v for k, v in (out.extra or {}).items() if k in ("inlined", "opaque_calls")} or extra
+                if out.status == "refuted":
+                    wits += out.witnesses
+                elif out.status != "discharged":
+                    undecided.append(f"{ref}: {out.detail[:160]}")
+            extra = dict(extra, by_backend=backends)
+            if wits:
+                return Outcome.refuted("pyvc/z3", wits[:6], count=total, discharged=dis, **extra)
+            if undecided:
+                return shape_verdict("pyvc", undecided, probe_parse_scalar, total or 1, {"runner": "props.lexical:probe_parse_scalar", "args": {}})
+            return Outcome.ok("pyvc/z3", count=total, **extra)
+
+        return fn
+
+    pv = "octave_mcp.core.parser:Parser.parse_value"
+    pl = "octave_mcp.core.parser:Parser.parse_list"
+    ps = "octave_mcp.core.parser:Parser.parse_section"
+    obs = [
+        Ob(f"{P}.P.read.{k}", "P", f"Parser.parse_value on a standalone {k} token (before a line end, comma, closing bracket, end of input) returns the token's value object itself and consumes exactly that token", [pv], make(lambda ctx, k=k: [f"standalone({k!r}, {f!r})" for f in PS.FOLLOW]))
+        for k in PS.KINDS
+    ]
+    obs.append(Ob(f"{P}.P.read.assign", "P", "Parser.parse_section on KEY::<scalar> returns Assignment(key = the key token's text, value = the scalar token's value), for each scalar token kind", [ps, pv], make(lambda ctx: [f"assignment({k!r})" for k in PS.KINDS])))
+    obs.append(Ob(f"{P}.P.read.list", "P", "Parser.parse_list on [v1,v2] / [v] / [] returns ListValue(items = the tokens' values in order) at any nesting depth below the limit, in both strictness modes", [pl, pv], make(lambda ctx: ["list_of(())"] + [f"list_of(({k!r},))" for k in PS.KINDS] + [f"list_of({pr!r})" for pr in PS.pairs(ctx.thorough)])))
+    obs.append(Ob(f"{P}.P.read.map", "P", "Parser.parse_list on [KEY::<scalar>] returns ListValue([InlineMap({key text: the token's value})])", [pl, "octave_mcp.core.parser:Parser.parse_list_item", pv], make(lambda ctx: [f"inline_map({k!r})" for k in PS.KINDS])))
+    obs.append(Ob(f"{P}.P.read.assign-list", "P", "Parser.parse_section on KEY::[v1,v2] composes the two", [ps, pl, pv], make(lambda ctx: [f"assignment_list({a!r}, {b!r})" for a, b in (("NUMBER", "STRING"), ("IDENTIFIER", "BOOLEAN"), ("NULL", "VARIABLE"))])))
+    pm = "octave_mcp.core.parser:Parser.parse_meta_block"
+    pd = "octave_mcp.core.parser:Parser.parse_document"
+    obs.append(Ob(f"{P}.P.read.meta", "P", "Parser.parse_meta_block on META: / KEY::<scalar> returns {key text: the scalar token's value}", [pm, pv], make(lambda ctx: [f"meta_field({k!r})" for k in PS.KINDS])))
+    obs.append(Ob(f"{P}.P.read.block", "P", "Parser.parse_section on NAME: / indented KEY::<scalar> returns Block(NAME, [Assignment(key text, the scalar token's value)])", [ps, pv], make(lambda ctx: [f"block_child({k!r})" for k in PS.KINDS])))
+    obs.append(Ob(f"{P}.P.read.document", "P", "Parser.parse_document on ===DOC=== / KEY::<scalar> / ===END=== returns Document(DOC, [Assignment(key text, the scalar token's value)])", [pd, ps, pv], make(lambda ctx: [f"document({k!r})" for k in PS.KINDS])))
+    return obs
